@@ -781,6 +781,11 @@ def long_inputs(run: Run, job: LongInputs) -> None:
         text = mk()
         out = outs[name]
         results[name] = {"length": len(text), "outcome": out[:80]}
+        if out.startswith("FOREIGN Timeout"):
+            # a time limit cannot decide termination: inconclusive, never a violation (path parsing is quadratic in the
+            # number of segments because every reduction rebuilds the frozen path, so 32 000 segments take minutes)
+            run.inconclusive(f"long-input:{name}", "long-inputs(concrete)", f"no outcome within the 30 s limit ({len(text)} characters)")
+            continue
         if out.startswith(("FOREIGN", "NON-NODE")):
             bad.append((name, text, out))
     run.extra["long_inputs(concrete replay, not a solver verdict)"] = results
